@@ -106,6 +106,10 @@ pub fn parse_input(s: &str) -> (Vec<u8>, Option<usize>) {
 pub struct WriterPlan {
     pub data: Vec<u8>,
     pub ops: Vec<Option<usize>>, // Some(len) = write, None = flush
+    /// optional 4th field `p<len>`: the options carry a preset dictionary of that length and the
+    /// data is made of slices of it (LZMA2WriterMT encodes every unit self-contained, i.e. ignores
+    /// the preset dictionary: its output must still equal the per-unit encoding WITHOUT preset)
+    pub preset: Option<Vec<u8>>,
 }
 pub fn parse_writer(s: &str) -> WriterPlan {
     let p: Vec<&str> = s.split(':').collect();
@@ -124,9 +128,21 @@ pub fn parse_writer(s: &str) -> WriterPlan {
         }
     }
     let mut rng = Rng::new(seed);
+    if p.len() > 3 && p[3].starts_with('p') {
+        let plen: usize = p[3][1..].parse().unwrap();
+        let preset: Vec<u8> = (0..plen).map(|_| rng.next() as u8).collect();
+        let mut data = Vec::with_capacity(total + 64);
+        while data.len() < total {
+            let l = 20 + rng.below(40) as usize;
+            let at = rng.below((plen - l.min(plen - 1)) as u64) as usize;
+            data.extend_from_slice(&preset[at..(at + l).min(plen)]);
+        }
+        data.truncate(total);
+        return WriterPlan { data, ops, preset: Some(preset) };
+    }
     let data = gen_data_len(&mut rng, p[0], total);
     let data = if data.len() < total { let mut d = data; d.resize(total, 0x41); d } else { data };
-    WriterPlan { data, ops }
+    WriterPlan { data, ops, preset: None }
 }
 
 /// single-threaded references
@@ -338,6 +354,7 @@ mod sh {
                 let mut w = if kind == "lzma2w" {
                     let mut opt = LZMA2Options::with_preset(1);
                     opt.lzma_options.dict_size = DICT;
+                    opt.lzma_options.preset_dict = plan.preset.clone();
                     opt.set_chunk_size(NonZeroU64::new(UNIT as u64));
                     Wr::A(LZMA2WriterMT::new(sink_buf, opt, workers).unwrap())
                 } else {
@@ -778,7 +795,33 @@ mod sh {
             scen.push(("lzipr".into(), w, hex(&members.concat()), d.to_string(), "lzip.dropped_early".into()));
         }
 
+        // LZIP files with EMPTY members (the output of a writer that was finished without data) in
+        // front of, between and behind non-empty ones: the reader must not take a member that
+        // decodes to zero bytes for the end of the data
+        for (si, shape) in [vec![1usize, 0, 1], vec![0, 1], vec![1, 0, 0, 1, 0], vec![0, 0, 1]].iter().enumerate() {
+            if !thorough && si >= 3 {
+                break;
+            }
+            let members: Vec<Vec<u8>> = shape
+                .iter()
+                .map(|&nz| {
+                    let n = if nz == 0 { 0 } else { 1 + rng.below(200) as usize };
+                    lzip_member(&payload(rng, n))
+                })
+                .collect();
+            let w = 1 + rng.below(4) as u32;
+            scen.push(("lzipr".into(), w, hex(&members.concat()), "end".into(), "lzip.empty_members".into()));
+        }
+
         // ---- writers ----
+        // LZMA2WriterMT with a preset dictionary in its options and more than one work unit whose data
+        // repeats the preset dictionary: every unit must still be self-contained
+        for si in 0..(if thorough { 6 } else { 2 }) {
+            let w = 1 + rng.below(3) as u32;
+            let ops = if si % 2 == 0 { format!("w{}", 2 * UNIT + 100) } else { format!("w{}+w{}+f+w{}", UNIT, UNIT / 2, UNIT) };
+            let spec = format!("text:{}:{}:p2048", rng.below(1 << 30), ops);
+            scen.push(("lzma2w".into(), w, spec, "end".into(), "lzma2w.preset_dict".into()));
+        }
         for si in 0..(if thorough { 24 } else { 8 }) {
             let kind = if si % 2 == 0 { "lzma2w" } else { "lzipw" };
             let w = 1 + rng.below(4) as u32;
